@@ -27,13 +27,13 @@ Print Assumptions C13_closure_call_params_restored.
 
 (* a failing closure whose error is handled: the outer variable keeps its value (the D4 scenario) *)
 Example C13_example :
-  let s := mkState [(hx "76", VBytes (hx "6f75746572"))] (VObj [(hx "6d", VBytes (hx "616263"))]) (VObj []) in
-  run F_inst binop_inst
+  let s := st0 [(hx "76", VBytes (hx "6f75746572"))] (VObj [(hx "6d", VBytes (hx "616263"))]) (VObj []) in
+  run_core
     [EAssign (TVar (hx "72") [])
        (EOp OErr (EClosure CMapValues (ELit (VObj [(hx "6b", VInt 1)])) [hx "76"]
                     [ECall (nm "int") [EQExt PEvent [SField (hx "6d")]]])
                  (ELit VNull));
      EVar (hx "76")] s
   = (Success (VBytes (hx "6f75746572")),
-     mkState [(hx "72", VNull); (hx "76", VBytes (hx "6f75746572"))] (VObj [(hx "6d", VBytes (hx "616263"))]) (VObj [])).
+     [(hx "72", VNull); (hx "76", VBytes (hx "6f75746572"))], VObj [(hx "6d", VBytes (hx "616263"))], VObj []).
 Proof. vm_compute. reflexivity. Qed.
